@@ -865,15 +865,29 @@ fn run_message(msg: &[u8], base: &Base, mode: Mode, pat: &Consume, probe: bool, 
     };
     let dr = drain(&mut d, pat);
     let post = if probe && dr.err.is_some() {
-        match core::guard(|| {
-            let mut b = [0u8; 64];
-            d.read(&mut b)
-        }) {
-            Ok(Ok(0)) => Post::Eof,
-            Ok(Ok(_)) => Post::Data,
-            Ok(Err(_)) => Post::Err,
-            Err(_) => Post::Panic,
+        // up to four more calls (a retry loop): the strongest thing seen wins (data > clean end > error)
+        let mut worst = Post::Err;
+        for _ in 0..4 {
+            match core::guard(|| {
+                let mut b = [0u8; 64];
+                d.read(&mut b)
+            }) {
+                Ok(Ok(0)) => {
+                    worst = Post::Eof;
+                    break;
+                }
+                Ok(Ok(_)) => {
+                    worst = Post::Data;
+                    break;
+                }
+                Ok(Err(_)) => {}
+                Err(_) => {
+                    worst = Post::Panic;
+                    break;
+                }
+            }
         }
+        worst
     } else {
         Post::NotProbed
     };
@@ -907,15 +921,29 @@ fn run_direct(body: &[u8], base: &Base, mode: Mode, pat: &Consume, sched: Sched,
     };
     let dr = drain(&mut dec, pat);
     let post = if probe && dr.err.is_some() {
-        match core::guard(|| {
-            let mut b = [0u8; 64];
-            dec.read(&mut b)
-        }) {
-            Ok(Ok(0)) => Post::Eof,
-            Ok(Ok(_)) => Post::Data,
-            Ok(Err(_)) => Post::Err,
-            Err(_) => Post::Panic,
+        // up to four more calls (a retry loop): the strongest thing seen wins (data > clean end > error)
+        let mut worst = Post::Err;
+        for _ in 0..4 {
+            match core::guard(|| {
+                let mut b = [0u8; 64];
+                dec.read(&mut b)
+            }) {
+                Ok(Ok(0)) => {
+                    worst = Post::Eof;
+                    break;
+                }
+                Ok(Ok(_)) => {
+                    worst = Post::Data;
+                    break;
+                }
+                Ok(Err(_)) => {}
+                Err(_) => {
+                    worst = Post::Panic;
+                    break;
+                }
+            }
         }
+        worst
     } else {
         Post::NotProbed
     };
@@ -1100,6 +1128,19 @@ fn judge(ctx: &mut Ctx, acc: &mut Acc, t: &Trial, level: Level, data: &[u8], out
                         }
                     }
                 }
+            }
+            // CheckFirst mode authenticates everything before anything is handed out: a container whose check
+            // failed must not hand out plaintext to a consumer that asks again either (a retry loop, `lines()`
+            // with `filter_map(Result::ok)`): "not a single plaintext byte is released" has no time limit there.
+            if *post == Post::Data && matches!(base.cfg, Cfg::V1 { .. }) && t.mode.check_first() {
+                ctx.violation(
+                    format!("C03/{fam}/{}/released-after-failure{cls}", t.kind),
+                    format!(
+                        "SEIPDv1 CheckFirst mode reported the failure and then released plaintext of the tampered container to the next read ({} level, {}, {}, {}, consumer {})",
+                        level.name(), base.label(), t.base.mode_name(t.mode), (t.desc)(), t.pat.name()
+                    ),
+                    replay("released-after-failure"),
+                );
             }
             if *post != Post::NotProbed {
                 // what a consumer sees that calls read() once more after the error (observation only:
